@@ -11,11 +11,13 @@ Open Scope N_scope.
    `if err != nil` block of connection.go doRead are exactly the three the model has (closed connection; time-out
    without bytes; error other than io.EOF / time-out) and onRead(bytesRead) follows the block - so a Read returning
    n > 0 together with io.EOF reaches onRead; the proxy's reaction to each close event of either connection (flush
-   and close the other side / close it without flush) is the model's table. *)
-Theorem c01_relay_source_shape :
-  RelaySrc_translator_ok = true /\ doread_eof_delivers = true /\
-  forall ev, up_reaction ev = Some (flushes ev) /\ down_reaction ev = Some (flushes ev).
-Proof. exact relay_source_shape. Qed.
+   and close the other side / close it without flush), as generated from the two switch statements, IS the table
+   the model's `flushes` was verified against (comparison by conversion; nothing in Proofs depends on Gen). *)
+Theorem c01_relay_source_is_verified_source :
+  RelaySrc_translator_ok = true /\ doread_eof_delivers = true /\ up_reaction = reaction_table /\ down_reaction = reaction_table.
+Proof. exact (conj eq_refl (conj eq_refl (conj eq_refl eq_refl))). Qed.
+Theorem c01_relay_reaction_table : forall ev, reaction_table ev = Some (flushes ev).
+Proof. exact reaction_table_is_flushes. Qed.
 
 (* For EVERY event history (any interleaving of the two read loops; every Read result: bytes, bytes together with
    io.EOF, io.EOF alone, (0,nil), time-outs, other errors; the upstream connecting late or not at all; every raw
@@ -37,7 +39,8 @@ Theorem c01_relay_identity : forall evs,
      (c_werr cx = false -> c_werr cy = false ->
         closes (c_trace cy) = [LocalClose] /\ c_closed cy = true /\ c_out cy = c_in cx)).
 Proof. exact relay_identity. Qed.
-Print Assumptions c01_relay_identity.
+(* assumptions: printed once for c01_relay_identity and c01_read_delivered together (c01_relay_closed below): each
+   Print Assumptions walks the proof terms of the 25 case lemmas of rd_inv, ~4-12 s *)
 
 (* non-vacuity: the last 3 bytes arrive in the same Read as io.EOF; the upstream socket gets all 5 bytes and the
    upstream connection is then closed locally; a response travelled the other way before *)
@@ -64,7 +67,13 @@ Theorem c01_read_delivered : forall evs x,
   let c := get (run evs) x in
   c_in c = fdata (c_trace c) ++ c_rbuf c /\ dbc (c_trace c) = true /\ (c_closed c = false -> c_rbuf c = []).
 Proof. exact read_delivered. Qed.
-Print Assumptions c01_read_delivered.
+
+Theorem c01_relay_closed :
+  (forall evs, let s := run evs in prefix (c_out (s_u s)) (c_in (s_d s)) /\ prefix (c_out (s_d s)) (c_in (s_u s))) /\
+  (forall evs x, let c := get (run evs) x in c_in c = fdata (c_trace c) ++ c_rbuf c).
+Proof. exact (conj (fun evs => conj (proj1 (c01_relay_identity evs)) (proj1 (proj2 (c01_relay_identity evs))))
+                   (fun evs x => proj1 (c01_read_delivered evs x))). Qed.
+Print Assumptions c01_relay_closed.
 
 (* One iteration of the read loop of an open, read-enabled connection whose Read returns bytes together with
    io.EOF: the filter chain gets the buffered bytes plus these bytes, THEN a close event follows. *)
